@@ -6,7 +6,8 @@ do_attestation, do_verify_attestation for Ledger and SGX, one action per protoco
 GenAttestFlow prints every run; each is concretised (real secp256k1 / P-256 keys, real X.509 chain, real
 HMAC tweaks, real byte flips) and driven through the repository's commands on real files
 (harness/attflow.py); every observation (gather outcome, files before / after load;save, verify outcome,
-printed values) is judged by TLC (TraceAttestFlow) with the very clauses the model satisfies."""
+printed values, HTTP requests made to the scripted Rootstock node / web server) is judged by TLC
+(TraceAttestFlow) with the very clauses the model satisfies."""
 import concurrent.futures as cf
 import json
 import multiprocessing
@@ -18,16 +19,19 @@ PROCS = int(os.environ.get("VERIF_PROCS", "4"))
 # None: every generated behaviour is replayed (both tiers); an integer keeps that many seeded members per
 # alteration class (for slow machines)
 SUBSET = int(os.environ["VERIF_C15_SUBSET"]) if os.environ.get("VERIF_C15_SUBSET") else None
-ACTIONS = ("Onboard", "Handshake", "GetDeviceKey", "SetupEndo", "EndoAck", "SaveAttCert", "LoadAttCert",
+ACTIONS = ("GetUdTyped", "NodeCall1", "NodeCall2", "Onboard", "Handshake", "GetDeviceKey", "SetupEndo", "EndoAck", "SaveAttCert", "LoadAttCert",
            "Unlock", "UiAppHash", "UiUd", "UiPage", "UiSig", "ExitUi", "SgGet", "SgMsgPage", "SgEnvPage",
            "SgAppHash", "HealthCheck", "SaveCert", "SxUnlock", "SxGet", "SxMsgPage", "SxEnvPage",
            "SxAppHash", "SxParse", "SxConvert", "SxSave", "Verify", "Reverify")
 # seeded defects of the MODEL's Sys and the clause each must break (the clauses are not vacuous)
 MODEL_BUGS = (("notweak", "AlteredFails"), ("dropfirst", "GenuineVerifies"), ("maxpages", "GenuineGathers"),
               ("swapmsg", "GenuineVerifies"), ("wrongtweak", "GenuineVerifies"), ("nobind", "AlteredFails"),
-              ("nohealth", "AlteredFails"))
-NEGATIVES = ("NeverVerifies", "NeverGatherFails", "NeverVerifyFails", "NeverLegacy", "NeverFourPages")
-TRACE_KEYS = ("id", "plat", "alt", "dev", "g_onboard", "g_attest", "gather", "file0", "reload0", "file",
+              ("nohealth", "AlteredFails"), ("udslice", "GenuineGathers"), ("noidcheck", "NodeBad"),
+              ("nostatus", "NodeBad"))
+NEGATIVES = ("NeverVerifies", "NeverGatherFails", "NeverVerifyFails", "NeverLegacy", "NeverFourPages",
+             "NeverNodeOk", "NeverReorgOk", "NeverNodeFails", "NeverRootByUrl", "NeverRootUrlBad")
+TRACE_KEYS = ("id", "udsrc", "node", "node_at", "node_n", "node_url", "rootvia", "root_url", "http", "ud_sent",
+              "att_file", "contacted", "g_err", "v_err", "plat", "alt", "dev", "g_onboard", "g_attest", "gather", "file0", "reload0", "file",
               "reload", "reload_ok", "verify", "printed", "verify2", "printed2")
 
 
@@ -158,7 +162,15 @@ def random_case(rng):
             idx = rng.randint(1, 2)
         elif site == "root":
             idx = rng.randint(1, 3)
-    b = {"plat": plat, "framing": framing, "cfg": cfg, "alt": {"site": site, "idx": idx}}
+    net = {"ud": "hex", "at": 0, "rootvia": "file"}
+    if site == "none" and rng.random() < 0.5:
+        beh, at = rng.choice(attflow.fakehttp.node_behaviours())
+        net = {"ud": beh, "at": at, "rootvia": "file"}
+    if plat == "sgx" and (site in ("none", "root")) and rng.random() < 0.5:
+        net["rootvia"] = "url"
+        if site == "root":
+            idx = rng.randint(1, 5)
+    b = {"plat": plat, "framing": framing, "cfg": cfg, "alt": {"site": site, "idx": idx}, "net": net}
     c = attflow.concretise(b, rng)
     c["random"] = True
     return c
@@ -176,7 +188,14 @@ def corrupted_observations(cases, results):
     logged field corrupted, and the clause that must reject each."""
     import copy
     gen = next(((o, c) for (o, _d), c in zip(results, cases)
-                if c["alt"]["site"] == "none" and o["verify"] == "ok"), None)
+                if c["alt"]["site"] == "none" and o["verify"] == "ok" and o["udsrc"] == "hex"
+                and o["rootvia"] == "file"), None)
+    nodeok = next((o for (o, _d), c in zip(results, cases)
+                   if o["udsrc"] == "node" and o["node"] in ("ok", "grew", "reorg") and o["verify"] == "ok"), None)
+    nodebad = next((o for (o, _d), c in zip(results, cases)
+                    if o["udsrc"] == "node" and o["node"] == "badid" and o["g_attest"] == "fail"), None)
+    urlok = next((o for (o, _d), c in zip(results, cases) if o["rootvia"] == "url" and o["verify"] == "ok"), None)
+    urlbad = next((o for (o, _d), c in zip(results, cases) if o["rootvia"] == "url" and o["verify"] == "fail"), None)
     alt = next(((o, c) for (o, _d), c in zip(results, cases)
                 if c["alt"]["site"] != "none" and o["gather"] == "ok" and o["verify"] == "fail"), None)
     out = []
@@ -201,6 +220,37 @@ def corrupted_observations(cases, results):
         o["verify"], o["verify2"] = "ok", "ok"
         o["printed"] = o["printed2"] = copy.deepcopy(gen[0]["printed"])
         out.append((o, "AlteredFails"))
+    if nodeok:
+        o = copy.deepcopy(nodeok)
+        o["http"] = o["http"][:1] + o["http"][2:]
+        out.append((o, "NodeProtocol"))
+        o = copy.deepcopy(nodeok)
+        o["http"][1]["params"][0] = "latest"
+        out.append((o, "NodeProtocol"))
+        o = copy.deepcopy(nodeok)
+        o["http"][0]["ctype"] = "text/plain"
+        out.append((o, "NodeProtocol"))
+        o = copy.deepcopy(nodeok)
+        o["ud_sent"] = o["ud_sent"][2:] + "00"
+        out.append((o, "UdDelivered"))
+    if nodebad:
+        o = copy.deepcopy(nodebad)
+        o["contacted"] = "yes"
+        out.append((o, "NodeBad"))
+        o = copy.deepcopy(nodebad)
+        o["g_err"] = "raw"
+        out.append((o, "NodeBad"))
+        o = copy.deepcopy(nodebad)
+        o["att_file"] = "yes"
+        out.append((o, "NodeBad"))
+    if urlok:
+        o = copy.deepcopy(urlok)
+        o["http"] = [c for c in o["http"] if c["verb"] != "get"][:]
+        out.append((o, "RootFetch"))
+    if urlbad:
+        o = copy.deepcopy(urlbad)
+        o["v_err"] = "raw"
+        out.append((o, "RootFetch"))
     return out
 
 
@@ -210,12 +260,6 @@ def judge(res, cases, results, src, stats_acc):
     for k, (o, _want) in enumerate(synthetic):
         traces.append(payload(len(results) + 1 + k, o))
     verdicts, stats = tlc.validate("TraceAttestFlow", "Trace_AttestFlow.cfg", traces, shards=PROCS * 2)
-    for k, (o, want) in enumerate(synthetic):
-        v = verdicts[len(results) + 1 + k]
-        if v["ok"] or v["clause"] != want:
-            raise core.MachineryError("trace specification self-test: corrupted observation %d should be "
-                                      "rejected by %s, got %s" % (k, want, v))
-    res.coverage["trace_spec_selftest_rejections"] = len(synthetic)
     res.checker_cmds.append("tlc -workers 1 -config Trace_AttestFlow.cfg TraceAttestFlow (x%d shards, %s)" % (
         stats["jvms"], src))
     accepted = 0
@@ -242,8 +286,17 @@ def judge(res, cases, results, src, stats_acc):
              "verdict": v})
     res.add_validation(stats, accepted)
     stats_acc["traces"] = stats_acc.get("traces", 0) + len(traces)
-    if len(synthetic) < 6 and not res.violations:
-        raise core.MachineryError("self-test of the trace specification could not be built")
+    # self-test of the trace specification; on a tree that already violates the property the picked
+    # observations may be rejected earlier than planned, which is not a failure of the machinery
+    if not res.violations:
+        if len(synthetic) < 15:
+            raise core.MachineryError("self-test of the trace specification could not be built")
+        for k, (o, want) in enumerate(synthetic):
+            v = verdicts[len(results) + 1 + k]
+            if v["ok"] or v["clause"] != want:
+                raise core.MachineryError("trace specification self-test: corrupted observation %d should be "
+                                          "rejected by %s, got %s" % (k, want, v))
+    res.coverage["trace_spec_selftest_rejections"] = len(synthetic)
     return verdicts
 
 
@@ -265,7 +318,12 @@ def run(ctx):
         "signature value, or of the root of trust (another key; a byte of x|y on Ledger, of TBS / signature "
         "on SGX). Framing bytes that nothing signs (page flags, length prefixes, signature_len, PEM armour, the "
         "unused third PEM certificate, the 04 prefix of the Ledger root key) are outside the property",
-        "UD value is supplied directly (--attudsource <64 hex digits>): no network",
+        "UD value: typed (--attudsource <64 hex digits>) or taken from a scripted Rootstock node standing in for "
+        "`requests` inside admin.rsk_client (harness/fakehttp.py; no real network); SGX root of trust: file or "
+        "URL served by the same fake layer. Every HTTP request the tools make is recorded and judged",
+        "node misbehaviours nohash / nullblock / hashlen / hashnothex / hashnoprefix end, as the code is today, in "
+        "KeyError / TypeError / ValueError instead of AdminError (adm_* still stops, exit 4): tolerated by the clause "
+        "NodeBad for exactly these (RawAsCoded), counted in coverage, strict form violated in Known2_AttestFlow",
         "inside an abstract class (which byte, which bit, which page size, which key) the choice is seeded "
         "sampling; the thorough tier sweeps every byte position of one representative device per platform",
         "printed values are read from the verify commands' stdout by the labels documented in "
@@ -304,7 +362,7 @@ def run(ctx):
     if not ctx.quick:
         # every vacuity guard on its own; the known window; every seeded model defect is caught
         jobs = [("Neg_AttestFlow_%s.cfg" % n, n) for n in NEGATIVES[1:]] + \
-               [("Known_AttestFlow.cfg", "GenuineGathers")] + \
+               [("Known_AttestFlow.cfg", "GenuineGathers"), ("Known2_AttestFlow.cfg", "NodeBadStrict")] + \
                [("NegBug_AttestFlow_%s.cfg" % b, cl) for b, cl in MODEL_BUGS]
         with cf.ThreadPoolExecutor(max_workers=4) as ex:
             outs = list(ex.map(lambda j: tlc.run("AttestFlow", j[0], workers=2), jobs))
@@ -348,11 +406,14 @@ def run(ctx):
     drift, drift_kinds = 0, {}
     for i, ((o, d), c) in zip(chosen, zip(results, cases)):
         b = behaviours[i]
+        node_run = b["net"]["ud"] != "hex"
         if (o["g_onboard"], o["g_attest"], o["verify"], o["verify2"]) != \
-                (b["g_onboard"], b["g_attest"], b["verify"], b["verify2"]):
+                (b["g_onboard"], b["g_attest"], b["verify"], b["verify2"]) or \
+                (node_run and o["g_err"] != b["g_err"]):
             drift += 1
-            k = "%s %s model=%s/%s/%s code=%s/%s/%s" % (c["plat"], c["alt"]["site"], b["g_onboard"], b["g_attest"],
-                                                         b["verify"], o["g_onboard"], o["g_attest"], o["verify"])
+            k = "%s %s node=%s model=%s/%s/%s/%s code=%s/%s/%s/%s" % (
+                c["plat"], c["alt"]["site"], b["net"]["ud"], b["g_onboard"], b["g_attest"], b["verify"], b["g_err"],
+                o["g_onboard"], o["g_attest"], o["verify"], o["g_err"])
             drift_kinds[k] = drift_kinds.get(k, 0) + 1
     for (o, d), c in zip(allres, everything):
         if d["faithful"]:
@@ -366,12 +427,25 @@ def run(ctx):
     judge(res, everything, allres, "model behaviours + random shapes + byte sweeps", stats_acc)
     outcomes = {}
     for (o, d), c in zip(allres, everything):
-        key = "%s/%s/%s" % (c["plat"], "genuine" if c["alt"]["site"] == "none" else "altered", outcome_class(o))
+        kind = "altered" if c["alt"]["site"] != "none" else (
+            "node-misbehaves" if c.get("udsrc") == "node" and c["node"] not in ("ok", "grew", "reorg") else "genuine")
+        key = "%s/%s/%s" % (c["plat"], kind, outcome_class(o))
         outcomes[key] = outcomes.get(key, 0) + 1
     classes_hit = {(c["plat"], c["framing"], c["alt"]["site"], c["alt"].get("field"), c["alt"].get("page"),
                     c["alt"].get("how")) for c in everything}
     res.coverage["boundary_content_genuine_devices"] = len(bcases)
     res.coverage["content_profiles"] = list(attflow.PROFILES)
+    res.coverage["node_runs"] = sum(1 for c in everything if c.get("udsrc") == "node")
+    res.coverage["node_behaviours_hit"] = sorted({"%s@%d" % (c["node"], c["node_at"]) for c in everything
+                                                  if c.get("udsrc") == "node"})
+    res.coverage["root_by_url_runs"] = sum(1 for c in everything if c.get("rootvia") == "url")
+    res.coverage["http_requests_recorded"] = sum(len(o["http"]) for (o, _d) in allres)
+    raw = {}
+    for (o, d), c in zip(allres, everything):
+        if o["udsrc"] == "node" and o["g_err"] == "raw":
+            k = "%s: %s" % (o["node"], (d["exc"].get("attest") or "").split(":")[0])
+            raw[k] = raw.get(k, 0) + 1
+    res.coverage["node_failures_escaping_as_raw_exceptions_tolerated_as_coded"] = raw
     res.coverage["random_cases"] = len(rcases)
     res.coverage["random_qeauth_sizes"] = len({c["qeauth"] for c in rcases if c["plat"] == "sgx"})
     res.coverage["sweep_positions"] = len(scases)
